@@ -885,7 +885,15 @@ def merge_transforms_unit(ctx, u, G, rng, n):
         for _ in range(G.ri(2, 3)):
             sp = G.tree(sh, None, G.ri(0, 1)) if rng.random() < 0.6 else nested_chain(G, sh, None, 1)
             specs.append(sp)
-            d = fd.Transformed(d, build(sp))
+            try:
+                d = fd.Transformed(d, build(sp))
+            except Exception as e:  # noqa: BLE001   the generator only produces valid trees: a constructor that rejects one is a finding, not a crash
+                ctx.violation(sig="ctor:valid-tree-rejected", what=f"a valid combinator tree could not be constructed: {type(e).__name__}: {str(e)[:160]} (tree {str(sp)[:200]})",
+                              case=jcase(sp), found_input=True, unit=u.name, expected="constructs (the model's sig_of is Ok)", observed=f"{type(e).__name__}", broken="constructor iff-conditions / C08 shape soundness")
+                d = None
+                break
+        if d is None:
+            continue
         m = d.merge_transforms()
         x = jnp.asarray(rng.integers(-3, 4, size=tuple(sh)).astype(np.float64))
         lp, lm = float(d.log_prob(x)), float(m.log_prob(x))
